@@ -1450,6 +1450,10 @@ func (w *world) runAll() (cases []lib.Case) {
 	if cfg.Index%5 == 4 {
 		w.recordStaleCases()
 	}
+	if cfg.Index%5 == 2 {
+		w.metadataDirNameCases()
+		w.mixedAlgorithmLinkCases()
+	}
 	switch cfg.Index % 4 {
 	case 0:
 		w.commandArgumentCases()
